@@ -10,7 +10,7 @@ MANIFEST = dict(
          "loop-free __CPROVER_assert obligations over offsetof/sizeof/__builtin_types_compatible_p on the real headers and discharged by "
          "cbmc; this is a complete decision for the current tree, not a bounded one.",
     note="Trusted: the ctypes->C type map and natural-alignment layout rule in abi/gen_abi.py (LP64), python's ast, CBMC's C front end. "
-         "const-qualification of char* parameters/returns is treated as the same kind. Field names are reported but not compared (ctypes layout is positional).",
+         "const-qualification of char* parameters/returns is treated as the same kind. Field names are compared position by position (one documented alias: DVECTLIST.dvector mirrors dvectorlist.d), so that swapping two same-typed members on either side is seen.",
     technique="generated static obligations (offsetof / __builtin_types_compatible_p) on the real headers, discharged by CBMC")
 
 META = dict(level="translation_validation",
